@@ -598,6 +598,7 @@ pub fn run_case(ctx: &mut Ctx, rng: &mut Rng, sock: &str, open: bool, cfg: SCfg,
     }
     let mut script: std::collections::VecDeque<String> = script.into();
     let replaying = g.replay;
+    let panics_before = crate::PANICS.lock().map(|v| v.len()).unwrap_or(0);
     let mut step = 0usize;
     let mut phase = Phase::Random;
     let mut phase_steps = 0usize;
@@ -727,6 +728,17 @@ pub fn run_case(ctx: &mut Ctx, rng: &mut Rng, sock: &str, open: bool, cfg: SCfg,
         w.waiting_since = None;
         w.obs.push("out=[] resp=[] pay=[]".into());
         ctx.count("crashes");
+    }
+    // a task of the plugin that panicked in the background (the calls themselves are guarded separately): C06's "no request can
+    // make the handler panic" covers the lifecycle task a request starts. K4's `todo!()` is reported through its hang.
+    {
+        let msgs: Vec<String> = crate::PANICS.lock().map(|v| v[panics_before.min(v.len())..].to_vec()).unwrap_or_default();
+        for m in msgs {
+            if m.contains("Failed to await pending payment") { ctx.count("panic:todo(K4)"); continue; }
+            let first = m.replace('\n', " ");
+            ctx.violation("C06", "task-panic", &format!("a task of the plugin panicked: {} REPLAY[{}]", first, replay(&w)));
+            break;
+        }
     }
     if let Some(detail) = pending_control.take() {
         // the same actions without the second hash: if the calls are answered then, the frozen hash was the cause
